@@ -117,13 +117,51 @@ type built struct {
 	calls    []string
 	features map[string]bool
 	nt       bool
+	hostile  []string // struct names taken from the identifiers generated code uses for its own variables
+}
+
+const shadowFinding = "C01-type-named-like-generated-local"
+
+// knownShadowed are the names the open finding was demonstrated with; generatedLocals starts with them and goes on with
+// the other parameter and variable names the plugins print.
+var knownShadowed = []string{"this", "that", "dst", "src", "f", "l", "list"}
+
+var generatedLocals = append(append([]string{}, knownShadowed...), "thisv", "thatv", "object", "h", "i", "j", "v", "k", "m", "out", "ok", "elem", "c", "res", "in", "err",
+	"intersect", "wait", "r", "o", "memoized", "keys", "contains", "vs", "u", "index", "indexes", "hash", "field", "errc", "errChan", "buf", "table", "set",
+	"key", "predicate", "pred", "union", "listOfLists", "thiskey", "thatkey", "thisvalue", "thatvalue", "cc1", "cc2")
+
+var reNotAType = regexp.MustCompile(`derived\.gen\.go:\d+:\d+: ([A-Za-z_0-9]+) is not a type`)
+
+// shadowed recognises the open finding: a struct named like a variable of the generated function that mentions it.
+func shadowed(b *built, sig map[string]string, msg string) map[string]string {
+	if sig == nil || (sig["oracle"] != "typecheck" && sig["oracle"] != "build") || len(b.hostile) == 0 {
+		return sig
+	}
+	m := reNotAType.FindStringSubmatch(msg)
+	if m == nil {
+		return sig
+	}
+	for _, n := range b.hostile {
+		if n == m[1] {
+			return map[string]string{"check": "type-shadowed-by-local", "name": n}
+		}
+	}
+	return sig
 }
 
 func drawProgram(t *rapid.T, c *pkit.Ctx) *built {
-	env := progen.DrawEnv(t, progen.EnvOpt{Avoid: c.ActiveSet()})
+	pool := append([]string{}, generatedLocals...)
+	if c.ActiveSet()[shadowFinding] {
+		// the names known to collide are left out while the finding is open (the probe keeps watching them)
+		pool = pool[len(knownShadowed):]
+	}
+	env := progen.DrawEnv(t, progen.EnvOpt{Avoid: c.ActiveSet(), LocalTypeNames: pool})
 	p := progen.NewProg(env)
 	n := rapid.IntRange(6, 24).Draw(t, "ncalls")
-	b := &built{features: map[string]bool{}}
+	b := &built{features: map[string]bool{}, hostile: env.HostileNames}
+	if len(env.HostileNames) > 0 {
+		b.features["types-named-like-generated-locals"] = true
+	}
 	used := progen.Used{}
 	kinds := append(append([]string{}, progen.StructuralPlugins...), progen.ListPlugins...)
 	for i := 0; i < n; i++ {
@@ -387,6 +425,7 @@ func TestProp(t *testing.T) {
 		}
 		before := gofmtUnclean
 		sig, msg := Judge(dir, patternsOf(b.files))
+		sig = shadowed(b, sig, msg)
 		if gofmtUnclean > before {
 			c.Rep.Class("derived-file-not-gofmt-clean")
 		}
